@@ -5,7 +5,10 @@ package main
 // clock before and after; the log is validated by TLC against spec/BundledTimer.tla.
 
 import (
+	"bufio"
+	"encoding/json"
 	mrand "math/rand"
+	"os"
 	"sync"
 	"time"
 
@@ -103,6 +106,97 @@ func runTimer(out *TraceWriter, seed int64, from, runs, steps int) {
 			mu.Lock()
 			res[r] = evs
 			mu.Unlock()
+		}(r)
+	}
+	wg.Wait()
+	for _, evs := range res {
+		for _, e := range evs {
+			out.Write(e)
+		}
+	}
+}
+
+// runTimerScript executes operation sequences generated from spec/TimerImpl.tla (its state cover: one schedule per reachable
+// state of the implementation-shaped timer model) on the real timer. One clock unit of the model = unit milliseconds; the
+// model's "Sleep" is a real sleep, "Wait" a non-blocking receive from C(). Every call is stamped like in runTimer and the log is
+// validated against spec/BundledTimer.tla on the MEASURED stamps.
+func runTimerScript(out *TraceWriter, file string, from int, unit int) {
+	type op struct {
+		K string `json:"k"`
+		H int    `json:"h"`
+		V int    `json:"v"`
+		D int64  `json:"d"`
+	}
+	f, err := os.Open(file)
+	if err != nil {
+		panic(err)
+	}
+	defer f.Close()
+	var scripts [][]op
+	sc := bufio.NewScanner(f)
+	sc.Buffer(make([]byte, 1<<20), 1<<26)
+	for sc.Scan() {
+		var ops []op
+		if err := json.Unmarshal(sc.Bytes(), &ops); err != nil {
+			panic(err)
+		}
+		scripts = append(scripts, ops)
+	}
+	u := time.Duration(unit) * time.Millisecond
+	res := make([][]tEv, len(scripts))
+	var wg sync.WaitGroup
+	sem := make(chan struct{}, 48)
+	for r := range scripts {
+		wg.Add(1)
+		sem <- struct{}{}
+		go func(r int) {
+			defer wg.Done()
+			defer func() { <-sem }()
+			t := btimer.New()
+			base := time.Now()
+			now := func() int64 { return int64(time.Since(base)) }
+			var evs []tEv
+			for i, o := range scripts[r] {
+				e := tEv{Run: from + r, I: i, K: o.K}
+				switch o.K {
+				case "Reset":
+					e.H, e.V, e.D = o.H, o.V, int64(time.Duration(o.D)*u)
+					e.T0 = now()
+					t.Reset(uint32(o.H), byte(o.V), time.Duration(o.D)*u)
+					e.T1 = now()
+				case "Extend":
+					e.D = int64(time.Duration(o.D) * u)
+					e.T0 = now()
+					t.Extend(time.Duration(o.D) * u)
+					e.T1 = now()
+				case "Wait":
+					e.T0 = now()
+					select {
+					case <-t.C():
+						e.Got = true
+					default:
+					}
+					e.T1 = now()
+				case "End": // the model says an expiry is still to be had: a blocking read must get it (within the tolerance of BundledTimer.tla)
+					w := 700 * time.Millisecond
+					e.K, e.D = "Wait", int64(w)
+					e.T0 = now()
+					select {
+					case <-t.C():
+						e.Got = true
+					case <-time.After(w):
+					}
+					e.T1 = now()
+				default: // Sleep
+					e.K, e.D = "Sleep", int64(time.Duration(o.D)*u)
+					e.T0 = now()
+					time.Sleep(time.Duration(o.D)*u + u/4) // a quarter unit past the model's instant: away from the deadlines, which lie on unit boundaries
+					e.T1 = now()
+				}
+				e.RH, e.RV = int(t.Height()), int(t.View())
+				evs = append(evs, e)
+			}
+			res[r] = evs
 		}(r)
 	}
 	wg.Wait()
